@@ -775,6 +775,15 @@ func (it *Interp) setupIntrinsics() {
 	}
 
 	// ----- runtime / sync -----
+	// math/rand: every outcome of a draw is explored (natively the harness searches seeds)
+	T["math/rand.Intn"] = func(it *Interp, fn *ssa.Function, a []Value) Value {
+		n := cint(it, a[0])
+		if n <= 0 {
+			panic(&goPanic{msg: "invalid argument to Intn"})
+		}
+		return it.mkInt(it.choose(n))
+	}
+	T["math/rand.Seed"] = func(it *Interp, fn *ssa.Function, a []Value) Value { return nil }
 	T["runtime.NumCPU"] = func(it *Interp, fn *ssa.Function, a []Value) Value {
 		lo, hi := it.cfg.Bounds["NumCPUMin"], it.cfg.Bounds["NumCPUMax"]
 		if hi == 0 {
